@@ -60,7 +60,7 @@ type ReqResult struct {
 type Fail struct {
 	Signature string `json:"signature"`
 	Msg       string `json:"msg"`
-	Timing    bool   `json:"timing,omitempty"` // wall-clock based: must be confirmed by a second run
+	Timing    bool   `json:"timing,omitempty"` // wall-clock or heap based: must be confirmed on fresh servers
 	ReqIndex  int    `json:"req_index"`
 }
 
@@ -76,13 +76,16 @@ type Result struct {
 	Harness    bool            `json:"harness,omitempty"` // the harness, not the server, failed: inconclusive
 	Repeats    int             `json:"repeats,omitempty"` // repetitions (Req.Repeat) beyond the recorded first one
 	RetainedMB float64         `json:"retained_mb"`       // heap retained by the whole case after Close + GC
+	// signatures of failures of requests that the transport cannot deliver (outside the domain; counted only)
+	OutOfDomain []string `json:"out_of_domain,omitempty"`
 }
 
 // ---- heap sampler ----
 
 var (
-	samplerOnce sync.Once
-	heapPeak    atomic.Uint64
+	samplerOnce  sync.Once
+	heapBase     atomic.Uint64 // live heap when the request in flight started (0: none in flight)
+	heapPeakLive atomic.Uint64 // largest heap of the request in flight measured right after a forced GC
 )
 
 func heapNow() uint64 {
@@ -94,16 +97,29 @@ func heapNow() uint64 {
 	return 0
 }
 
+// startSampler watches the heap while a request runs. The raw heap size contains
+// garbage that the collector has not reclaimed yet (with GOGC=100 up to as much as
+// is live), so a raw peak says nothing about growth. When the raw heap exceeds the
+// bound the sampler forces a collection (at most every 50 ms) and records what is
+// still reachable: that is the growth the request really holds.
 func startSampler(abort bool) {
 	samplerOnce.Do(func() {
 		go func() {
+			var lastGC time.Time
 			for {
 				time.Sleep(2 * time.Millisecond)
 				h := heapNow()
-				for {
-					p := heapPeak.Load()
-					if h <= p || heapPeak.CompareAndSwap(p, h) {
-						break
+				if base := heapBase.Load(); base != 0 && h > base+heapLimit && time.Since(lastGC) > 50*time.Millisecond {
+					runtime.GC()
+					lastGC = time.Now()
+					h = heapNow()
+					if heapBase.Load() == base { // still the same request
+						for {
+							p := heapPeakLive.Load()
+							if h <= p || heapPeakLive.CompareAndSwap(p, h) {
+								break
+							}
+						}
 					}
 				}
 				if abort && h > abortHeap {
@@ -186,7 +202,7 @@ type runner struct {
 	ds       storage.OpenFGADatastore
 	st       ids
 	res      Result
-	progress func(i int, rpc string)
+	progress func(i int, rpc, wire string)
 }
 
 func newServer(o SrvOpts) (*server.Server, storage.OpenFGADatastore, error) {
@@ -225,8 +241,21 @@ func (r *runner) guarded(i int, rpc string, feats map[string]bool, msg validatab
 	rr.Validated = msg.Validate() == nil
 	rr.Wire = wire
 	if r.progress != nil {
-		r.progress(i, rpc)
+		r.progress(i, rpc, wire)
 	}
+	// A request that the transport cannot deliver (invalid UTF-8 in a proto3 string
+	// field, more than 4 MiB, nested beyond protobuf's recursion limit) is not a
+	// "well-typed protobuf request": it is outside the domain of the property. It is
+	// still executed (an embedding program could pass it), but whatever goes wrong is
+	// only counted ("out-of-domain:<signature>"), never reported as a violation.
+	defer func() {
+		if fail != nil && wire != "ok" {
+			rr.Outcome = "out-of-domain-" + rr.Outcome
+			r.res.OutOfDomain = append(r.res.OutOfDomain, fail.Signature)
+			r.res.Dirty = true // continue in a fresh process
+			fail = nil
+		}
+	}()
 
 	type outT struct {
 		resp  proto.Message
@@ -237,7 +266,13 @@ func (r *runner) guarded(i int, rpc string, feats map[string]bool, msg validatab
 	done := make(chan outT, 1)
 	var before, after runtime.MemStats
 	runtime.ReadMemStats(&before)
-	heapPeak.Store(heapNow())
+	base := heapNow()
+	if base == 0 {
+		base = 1
+	}
+	heapPeakLive.Store(0)
+	heapBase.Store(base)
+	defer heapBase.Store(0)
 	start := time.Now()
 	go func() {
 		var o outT
@@ -293,13 +328,12 @@ func (r *runner) guarded(i int, rpc string, feats map[string]bool, msg validatab
 	// memory: cumulative allocation below the bound proves the growth was below it;
 	// otherwise look at the sampled live-heap peak and at what is retained after a GC.
 	if alloc >= heapLimit {
-		peak := int64(heapPeak.Load()) - int64(before.HeapAlloc)
+		peak := int64(heapPeakLive.Load()) - int64(base)
+		heapBase.Store(0)
 		runtime.GC()
-		var gc runtime.MemStats
-		runtime.ReadMemStats(&gc)
-		retained := int64(gc.HeapAlloc) - int64(before.HeapAlloc)
+		retained := int64(heapNow()) - int64(base)
 		if peak >= heapLimit || retained >= heapLimit {
-			return rr, &Fail{Signature: "C19/heap-growth:" + rpc, ReqIndex: i, Msg: fmt.Sprintf("%s grew the heap by %d MiB at its peak (%d MiB retained after GC, %d MiB allocated in total), bound %d MiB; outcome %s %s",
+			return rr, &Fail{Signature: "C19/heap-growth:" + rpc, ReqIndex: i, Timing: true, Msg: fmt.Sprintf("%s held %d MiB more reachable heap than at its start while it ran (measured after forced collections), %d MiB retained after it returned, %d MiB allocated in total; bound %d MiB; outcome %s %s",
 				rpc, peak>>20, retained>>20, alloc>>20, heapLimit>>20, rr.Outcome, rr.Err)}
 		}
 	}
@@ -337,6 +371,10 @@ func hotFrame(dump, rpc string) string {
 	if best == "" {
 		return rpc
 	}
+	// the goroutines of a stuck pipeline park in varying helper functions: name the package
+	if strings.HasPrefix(best, "internal/listobjects/pipeline") {
+		return "internal/listobjects/pipeline"
+	}
 	return best
 }
 
@@ -352,7 +390,7 @@ func openfgaGoroutines(dump string) string {
 }
 
 // runCase evaluates a whole case on a fresh server over a fresh memory datastore.
-func runCase(c Case, progress func(i int, rpc string)) (res Result) {
+func runCase(c Case, progress func(i int, rpc, wire string)) (res Result) {
 	startSampler(false)
 	var base runtime.MemStats
 	runtime.GC()
@@ -478,7 +516,7 @@ func runCase(c Case, progress func(i int, rpc string)) (res Result) {
 	// 3. tuples straight into the datastore (bypassing validation)
 	seen := map[string]bool{}
 	if r.progress != nil && len(c.Tuples) > 0 {
-		r.progress(setupPhase, "(setup: tuples straight into the datastore)")
+		r.progress(setupPhase, "(setup: tuples straight into the datastore)", "")
 	}
 	for _, g := range c.Tuples {
 		g.features(r.res.StateFeats)
@@ -511,7 +549,7 @@ func runCase(c Case, progress func(i int, rpc string)) (res Result) {
 		for k := 0; k <= rep; k++ {
 			q := c.Reqs[i].variant(k)
 			if r.progress != nil {
-				r.progress(setupPhase, "(building request "+itoa(i)+")")
+				r.progress(setupPhase, "(building request "+itoa(i)+")", "")
 			}
 			msg, wire, call := q.build(srv, r.st)
 			if msg == nil {
